@@ -80,6 +80,13 @@ TIE / coverage: generated graphs (numeric: Relu/Neg/Identity/Add/Mul/Clip with o
   Compared: Ok/Raise + exception class, node names in order, initializer names (set), input/output names;
   analyze result as ordered list of (graph, set of values) or the exception.
 
+  Shadowing (round 2, seeded change C18-r2m1: name table built with include_subgraphs=True): on 40 % of the
+  well-formed graphs a value inside a body of node i carries the NAME of a main-graph value produced by a later
+  node, and half of those graphs' cuts put that value on the boundary by name; the oracle requires a boundary name
+  that is not a value of the graph (e.g. only defined in a nested body) to be rejected, and the by-name result to
+  equal the by-object result of the same cut. Corpus 04 is the hand-written instance. Caught with a concrete input
+  by the generator alone (corpus case removed) and with it.
+
 ORACLE readings (weaker where ambiguous): domain = well-formed sources (topologically sorted, every value
   defined once in an enclosing scope, unique non-empty names, view nodes in source order, boundary
   references denoting top-level values known to the source); "raises" = any exception; initializers of
@@ -312,8 +319,21 @@ def gen_spec(rng: random.Random, mode: str = "numeric", size: int = 1, malform: 
             if la and b["nodes"]:
                 b["nodes"][-1]["ins"].append(rng.choice(la))
                 flags.append("scope-leak")
+    # shadowing (well-formed for the IR, in the oracle's domain): a value defined inside a body of node i gets
+    # the name of a value of the main graph produced by a LATER node, so that a recursive name table would
+    # meet the inner value first; boundary names must still denote the values of the graph being extracted
+    shadowed = []
+    if not flags and rng.random() < 0.4:
+        for i, n in enumerate(root["nodes"]):
+            inner = [o for s_ in n["subs"] for m in _all_nodes(s_) for o in m["outs"]]
+            later = [o for m in root["nodes"][i + 1:] for o in m["outs"]]
+            if inner and later and rng.random() < 0.7:
+                a, t = rng.choice(inner), rng.choice(later)
+                if g.values[a]["name"] == f"v{a}" and t not in shadowed:
+                    g.values[a]["name"] = g.values[t]["name"]
+                    shadowed.append(t)
     return {"mode": mode, "values": {str(k): v for k, v in g.values.items()}, "root": root,
-            "detached": g.detached, "flags": flags}
+            "detached": g.detached, "flags": flags, "shadowed": shadowed}
 
 
 # =========================================================================== implementation side
@@ -574,6 +594,13 @@ def oracle_extract(spec: dict, B: Built, src: dict, inputs: list, outputs: list,
     def res(r):
         return r[1] if r[0] == "o" else by_name.get(r[1])
     ins, outs = [res(r) for r in inputs], [res(r) for r in outputs]
+    if src["kind"] != "view" and any(r[0] == "n" and r[1] not in by_name for r in inputs + outputs):
+        # "ValueError: If any of the inputs or outputs are not found in the graph" — a name that only exists
+        # inside a nested body (or nowhere) is not a value of the graph
+        if obs["kind"] != "raise":
+            return [f"a boundary name that is not a value of the graph was accepted: "
+                    f"{[r[1] for r in inputs + outputs if r[0] == 'n' and r[1] not in by_name]}"]
+        return []
     if any(v is None or v not in top for v in ins + outs):
         return []
     if src["kind"] == "view":
@@ -608,6 +635,14 @@ def oracle_extract(spec: dict, B: Built, src: dict, inputs: list, outputs: list,
         bad.append("inputs/outputs of the result are not the requested boundary")
     if obs["shared_objects"]:
         bad.append(f"result shares {obs['shared_objects']} Graph/Node/Value objects with the source")
+    if any(r[0] == "n" for r in inputs + outputs):
+        # the same cut given by object must give the same result
+        o2 = run_extract(B, src, [["o", v] for v in ins], [["o", v] for v in outs])
+        same = o2["kind"] == obs["kind"] and all(o2.get(k) == obs.get(k)
+                                                 for k in ("nodes", "inits", "in_strs", "out_strs"))
+        if not same:
+            bad.append(f"by-name and by-object extraction of the same cut differ: by name {obs.get('nodes')}, "
+                       f"by object {o2.get('nodes', o2.get('exn'))}")
     if evaluate and spec["mode"] == "numeric" and not bad and "graph" in obs:
         if getattr(B, "_srcvals", None) is None:
             B._srcvals = [source_values(B, s) for s in (1, 2)]
@@ -716,6 +751,17 @@ def gen_cuts(spec: dict, rng, n: int, exhaustive: bool) -> list[dict]:
             src = {"kind": "view", "nodes": sel, "inputs": vin,
                    "inits": [v for v in root["inits"] if rng.random() < 0.7], "outputs": list(outs)}
         mode = rng.choice(["obj", "obj", "name", "mixed"])
+        sh = spec.get("shadowed") or []
+        if sh and rng.random() < 0.5:
+            # put the shadowed main-graph value on the boundary, by name
+            t = rng.choice(sh)
+            if rng.random() < 0.75:
+                ins = [t] + [v for v in ins if v != t]
+            else:
+                outs = [t] + [v for v in outs if v != t][:1]
+            mode = "name"
+            if src["kind"] == "view":
+                src["outputs"] = list(outs)
         bn = lambda: mode == "name" or (mode == "mixed" and rng.random() < 0.5)  # noqa: E731
         irefs = [mk_ref(spec, v, bn()) for v in ins]
         orefs = [mk_ref(spec, v, bn()) for v in outs]
